@@ -46,9 +46,14 @@ def _solver(pv, case, comp, t, p1=None, p2=None, model=None):
     return call(pv.calculate_partial_fluxes, **kw)
 
 
-def _same_fluxes(a, b, what):
+def _same_fluxes(a, b, what, scale=None):
+    """Same question, same answer.  `scale` = un-cancelled flux scale (permeance x feed partial pressure): entry points that
+    convert the composition on the way (molar -> mass -> molar) perturb it by one rounding, which the cancellation
+    feed - permeate pressure amplifies relative to the flux itself (thorough-tier false alarm, DESIGN section 12)."""
     for i in (0, 1):
-        require(relerr(a[i], b[i]) <= TOL, "%s: flux %d = %r, standalone flux calculation gives %r", what, i + 1, float(a[i]), float(b[i]))
+        slack = 0.0 if scale is None else 1e-11 * abs(float(scale[i]))
+        require(abs(float(a[i]) - float(b[i])) <= TOL * max(abs(float(a[i])), abs(float(b[i]))) + slack,
+                "%s: flux %d = %r, standalone flux calculation gives %r", what, i + 1, float(a[i]), float(b[i]))
 
 
 def sep_factor(y, w):
@@ -79,6 +84,8 @@ def _body(case, mix, pv, comp, t, perm, prec, mdl, w, classes):
     if not (all(math.isfinite(v) for v in j) and j[0] + j[1] > 0 and 0 < j[0] / (j[0] + j[1]) < 1):
         raise Discard("reference fluxes not finite/positive")
     y = j[0] / (j[0] + j[1])
+    vac = call(pv.calculate_partial_fluxes, feed_temperature=t, composition=comp, calculation_type=mdl)
+    scale = None if is_raised(vac) else (float(vac[0]), float(vac[1]))
     other = _solver(pv, case, comp, t, model="UNIQUAC" if mdl == "NRTL" else "NRTL")
     differs = (not is_raised(other)) and max(relerr(other[0], j[0]), relerr(other[1], j[1])) > 1e-6
 
@@ -96,7 +103,7 @@ def _body(case, mix, pv, comp, t, perm, prec, mdl, w, classes):
     # one-point ideal diffusion curve
     dc = call(pv.ideal_diffusion_curve, t, [comp], perm["T"], perm["p"], prec, mdl)
     require(not is_raised(dc), "ideal_diffusion_curve raised %r", dc)
-    _same_fluxes(dc.partial_fluxes[0], j, "ideal_diffusion_curve(%s)" % mdl)
+    _same_fluxes(dc.partial_fluxes[0], j, "ideal_diffusion_curve(%s)" % mdl, scale)
     require(abs(dc.permeate_composition[0].p - y) <= TOL, "curve permeate composition %r != %r", dc.permeate_composition[0].p, y)
     require(relerr(dc.get_separation_factor[0], sf_ref) <= 1e-9, "curve separation factor %r but (y1/y2)/(x1/x2) = %r (input basis %s)",
             float(dc.get_separation_factor[0]), sf_ref, case["basis"])
@@ -124,7 +131,7 @@ def _body(case, mix, pv, comp, t, perm, prec, mdl, w, classes):
             classes.append("process-raised")
             continue
         nproc += 1
-        _same_fluxes(model.partial_fluxes[0], j, "step 0 of the %s process (%s)" % (kind, mdl))
+        _same_fluxes(model.partial_fluxes[0], j, "step 0 of the %s process (%s)" % (kind, mdl), scale)
         for k in range(len(model.partial_fluxes)):
             jk = model.partial_fluxes[k]
             alone = _solver(pv, case, model.feed_compositions[k], model.feed_temperature[k],
@@ -174,7 +181,9 @@ def check_nonideal(case):
             ref = _solver(pv, case, build.composition(s.x, s.basis), case["T"])
             if is_raised(ref):
                 raise Discard("reference flux calculation raised %s" % ref.type)
-            _same_fluxes(model.partial_fluxes[0], ref, "step 0 of the %s process started with the membrane's permeances" % case["kind"])
+            vac = call(pv.calculate_partial_fluxes, feed_temperature=case["T"], composition=build.composition(s.x, s.basis), calculation_type=case["model"])
+            _same_fluxes(model.partial_fluxes[0], ref, "step 0 of the %s process started with the membrane's permeances" % case["kind"],
+                         None if is_raised(vac) else (float(vac[0]), float(vac[1])))
             for k in range(len(model.partial_fluxes)):
                 jk = model.partial_fluxes[k]
                 alone = _solver(pv, case, model.feed_compositions[k], float(model.feed_temperature[k]), model.permeances[k][0], model.permeances[k][1])
